@@ -178,6 +178,21 @@ def audit(prop, module, theorems, timeout=600, deps=()):
     return res, out
 
 
+def leanchecker(modules, timeout=1800):
+    """the toolchain's independent re-checker on the compiled modules (and everything they import): returns
+    (ok, output)"""
+    env = dict(os.environ)
+    env.pop("PYTHONPATH", None)
+    try:
+        r = subprocess.run(["lake", "env", "leanchecker"] + list(modules), cwd=LEAN_DIR, stdout=subprocess.PIPE,
+                           stderr=subprocess.STDOUT, text=True, timeout=timeout, env=env)
+    except subprocess.TimeoutExpired:
+        raise InternalError("leanchecker timed out")
+    except OSError as e:
+        return None, "leanchecker not available: %s" % e
+    return r.returncode == 0, r.stdout[-800:]
+
+
 # ---------------------------------------------------------------------------------------------
 # driver
 
